@@ -70,7 +70,7 @@ ENGINES = {
                    # code under test become scheduler yield points (no ASan in this variant)
                    variant_build={"atomics": dict(san="-fsanitize=thread,undefined", ld_san="-fsanitize=undefined",
                                                   extra=["sim/logsim/atomics_rt.cpp"])},
-                   variant_weight={"atomics": 0.2},
+                   variant_weight={"atomics": 0.6}, variant_recycle={"atomics": 1200},
                    probes=[("LS_HAVE_CALLABLE_LIT", "sim/logsim/probe_callable_lit.cpp"),
                            ("LS_HAVE_CALLABLE_FN", "sim/logsim/probe_callable_fn.cpp"),
                            ("LS_HAVE_CALLABLE_OBJ", "sim/logsim/probe_callable_obj.cpp")]),
@@ -238,7 +238,8 @@ def build_engine(engine):
         for j, src in enumerate(spec["src"]):
             obj = os.path.join(d, "eng_%s_%d.o" % (vname or "x", j))
             objs.append(obj)
-            cmd = [CXX] + cflags + defs + vflags + ["-c", os.path.join(VERIF, src), "-o", obj]
+            vdefs = [vb["opt"] if (vb and vb.get("opt") and f.startswith("-O")) else f for f in defs]
+            cmd = [CXX] + cflags + vdefs + vflags + ["-c", os.path.join(VERIF, src), "-o", obj]
             procs.append((src + ":" + vname, subprocess.Popen(cmd, stdout=subprocess.PIPE, stderr=subprocess.STDOUT, text=True)))
         var_objs.append((vname, objs))
     failed = []
@@ -384,6 +385,9 @@ class Batch:
 
     def worker(self, binary, wid, a, b, extra):
         chunk = ENGINES[self.engine].get("recycle")
+        for v, n in ENGINES[self.engine].get("variant_recycle", {}).items():
+            if os.path.basename(binary).endswith("_" + v):
+                chunk = n
         if chunk:
             for c in range(a, b, chunk):
                 self.worker_chunk(binary, wid, c, min(b, c + chunk), extra)
